@@ -79,34 +79,38 @@ extern "C" int harness_main() {
     RecordingObserver<64> obs{&g_log};
     run_sim(build_graph<Top>(), g_start, g_end, &obs);
 
-    // ---- oracle
+    // ---- oracle.  Branch-free accumulation: comparisons of symbolic times become solver terms, not
+    // forks, and each assertion id is discharged by one query per path.
     verif_assert(!g_log.overflow, "C02.log_overflow");
     DateTime prev = MIN_DT;
     int cycles = 0;
+    bool ok_window = true, ok_requested = true, ok_honoured = true, ok_asked = true, beyond = false;
     for (int i = 0; i < g_log.n; i++) {
         if (g_log.ev[i].kind != EV_GRAPH_BEGIN || g_log.ev[i].depth != 0) continue;
         DateTime t = g_log.ev[i].t;
         cycles++;
-        verif_assert(t > prev, "C02.time_strictly_increases");
-        verif_assert(t >= g_start, "C02.not_before_start");
-        verif_assert(t < g_end, "C02.before_end");
         bool requested = false;
-        for (int r = 0; r < g_nreq; r++) if (g_req[r].t == t) requested = true;
-        verif_assert(requested, "C02.no_spurious_cycle");
+        for (int r = 0; r < g_nreq; r++) requested |= (g_req[r].t == t);
+        ok_window &= (t > prev) & (t >= g_start) & (t < g_end);
+        ok_requested &= requested;
         prev = t;
     }
     for (int r = 0; r < g_nreq; r++) {
-        if (g_req[r].t >= g_end) { verif_reach("request_beyond_end"); continue; }
         bool ran = false;
-        for (int i = 0; i < g_nruns; i++) if (g_runs[i].t == g_req[r].t && g_runs[i].node == g_req[r].node) ran = true;
-        verif_assert(ran, "C02.wakeup_honoured_at_exact_time");
+        for (int i = 0; i < g_nruns; i++) ran |= (g_runs[i].t == g_req[r].t) & (g_runs[i].node == g_req[r].node);
+        beyond |= (g_req[r].t >= g_end);
+        ok_honoured &= ran | (g_req[r].t >= g_end);
     }
-    // no node ran at a time it did not ask for
     for (int i = 0; i < g_nruns; i++) {
         bool asked = false;
-        for (int r = 0; r < g_nreq; r++) if (g_req[r].t == g_runs[i].t && g_req[r].node == g_runs[i].node) asked = true;
-        verif_assert(asked, "C02.node_ran_only_when_requested");
+        for (int r = 0; r < g_nreq; r++) asked |= (g_req[r].t == g_runs[i].t) & (g_req[r].node == g_runs[i].node);
+        ok_asked &= asked;
     }
+    verif_assert(ok_window, "C02.time_strictly_increases_within_window");
+    verif_assert(ok_requested, "C02.no_spurious_cycle");
+    verif_assert(ok_honoured, "C02.wakeup_honoured_at_exact_time");
+    verif_assert(ok_asked, "C02.node_ran_only_when_requested");
+    if (beyond) verif_reach("request_beyond_end");
     if (cycles >= 3) verif_reach("three_cycles");
     verif_log("cycles", cycles);
     verif_reach("end");
